@@ -483,6 +483,18 @@ def piecewise(branches: List[Tuple[Optional[Tuple[str, Poly, Poly]], Poly]], gen
         else:
             return None
     reg = {r: next((v for op, v in norm if r in _HOLD[op]), general) for r in ("lt", "eq", "gt")}
+    # a region whose value is itself a three-region form over the same quantity selects that region
+    # of it (nested conditionals: `if k == 0: n else (n >> k if k > 0 else n << -k)`)
+    for r_ in ("lt", "eq", "gt"):
+        v_ = reg[r_]
+        if len(v_.terms) == 1:
+            (m_, c_), = v_.terms.items()
+            if c_ == 1 and len(m_) == 1 and m_[0][1] == 1 and m_[0][0][0] == "ite3":
+                _, d_in, l_in, e_in, g_in = m_[0][0]
+                if d_in == d0:
+                    reg[r_] = {"lt": l_in, "eq": e_in, "gt": g_in}[r_]
+                elif d_in == -d0:
+                    reg[r_] = {"lt": g_in, "eq": e_in, "gt": l_in}[r_]
     lt, eq, gt = reg["lt"], reg["eq"], reg["gt"]
     if lt == eq and eq == gt:
         return eq
